@@ -7,6 +7,7 @@ import (
 	"os"
 
 	"verifharness/gl/c10"
+	"verifharness/gl/c11"
 	"verifharness/gl/c14"
 	"verifharness/gl/c17"
 	"verifharness/gl/c20"
@@ -22,6 +23,7 @@ var cmds = map[string]func([]string) int{
 	"C05": c05.Main,
 	"C09": c09.Main,
 	"C10": c10.Main,
+	"C11": c11.Main,
 	"C12": c12.Main,
 	"C13": c13.Main,
 	"C14": c14.Main,
